@@ -51,6 +51,7 @@ TRUSTED = [
     'numpy float arithmetic is exact on the generated dyadic voltages / amplitudes (binary64 rounding is not modelled)',
     'Waveform.__eq__/__hash__ after get_subset_for_channels: its equality classes are an INPUT of the model (wf_cls)',
     'Waveform.get_sampled of Table/Constant/MultiChannel waveforms (C08): the specification uses samples computed by the harness from the table entries',
+    'translate/py2gallina_c16.py: the declared observations (python expression -> variable) and the collection of tests in source order; the actions between the tests (what a branch does to the Loop objects) are tied by the correspondence check only',
     'harness: generators, exact float->rational conversion, Gallina printers, run-length encoding, memoised samples; for the "compiled twice" family the tree is read back from the Loop by waveform identity',
     'MappingPT / build_waveform channel mapping and TransformingWaveform(LinearTransformation) are sampled by qupulse; the specification side uses the harness\' own samples (linear combinations computed exactly)',
     'the instrument driver hardware/awgs/tabor.py is not importable offline; its table layout (idle table first, numbers + 1) is re-created by the harness for PlottableProgram',
@@ -60,6 +61,49 @@ ASSUMPTIONS = [
     'voltage transformations are affine maps with dyadic coefficients; amplitude > 0',
     'every leaf defines all assigned channels; leaf lengths are exact integers or clearly non-integers (no length within the 1e-10 tolerance of an integer)',
 ]
+
+GEN_FILE = os.path.join(vlib.COQ, 'C16', 'Gen_tabor.v')
+# the decisions of the Tabor compiler taken from the current source (translate/py2gallina_c16.py): function, declared
+# observations (python expression, Gallina variable, type), expected number of if / elif / while / assert tests
+GEN_SPEC = [
+    ('_check_merge_with_next', [
+        ('program[n].repetition_count', 'ra', 'Z'), ('program[n + 1].repetition_count', 'rb', 'Z'),
+        ('program[n].volatile_repetition is None', 'va_none', 'bool'),
+        ('program[n + 1].volatile_repetition is None', 'vb_none', 'bool'),
+        ('len(program[n])', 'la', 'Z'), ('len(program[n + 1])', 'lb', 'Z'), ('max_seq_len', 'mx', 'Z')], 1),
+    ('_check_partial_unroll', [
+        ('st.volatile_repetition', 'vol', 'bool'),
+        ('sum((entry.repetition_count for entry in st))', 's', 'Z'), ('st.repetition_count', 'r', 'Z'),
+        ('len(st)', 'ln', 'Z'), ('min_seq_len', 'mn', 'Z')], 4),
+    ('prepare_program_for_advanced_sequence_mode', [
+        ('i', 'i', 'Z'), ('len(program)', 'n', 'Z'),
+        ('len(program[i])', 'lc', 'Z'), ('len(program[i - 1])', 'lp', 'Z'), ('len(program[i + 1])', 'lnx', 'Z'),
+        ('program[i].repetition_count', 'rc', 'Z'), ('program[i - 1].repetition_count', 'rp', 'Z'),
+        ('program[i + 1].repetition_count', 'rn', 'Z'),
+        ('program[i].volatile_repetition is None', 'vc_none', 'bool'),
+        ('program[i - 1].volatile_repetition', 'vp', 'bool'), ('program[i + 1].volatile_repetition', 'vn', 'bool'),
+        ('_check_merge_with_next(program, i - 1, max_seq_len=max_seq_len)', 'merge_prev', 'bool'),
+        ('_check_merge_with_next(program, i, max_seq_len=max_seq_len)', 'merge_next', 'bool'),
+        ('_check_partial_unroll(program, i, min_seq_len=min_seq_len)', 'partial', 'bool'),
+        ('min_seq_len', 'mn', 'Z'), ('max_seq_len', 'mx', 'Z')], 13),
+    ('TaborProgram._calc_sampled_segments', [
+        ('waveform_samples', 'n', 'Z'), ('len(segment_a)', 'lsa', 'Z'), ('len(segment_b)', 'lsb', 'Z'),
+        ('len(t)', 'lt', 'Z'), ('segment_idx', 'si', 'Z'), ('previous_segment_count', 'pc', 'Z')], 4),
+]
+
+
+def pregen(ctx):
+    import sys
+    sys.path.insert(0, os.path.join(vlib.VERIF, 'translate'))
+    import py2gallina_c16
+    src = os.path.join(vlib.REPO, 'qupulse/_program/tabor.py')
+    ob = 'translate:qupulse/_program/tabor.py::decisions(_check_merge_with_next,_check_partial_unroll,prepare_program_for_advanced_sequence_mode,_calc_sampled_segments)'
+    try:
+        vlib.write_if_changed(GEN_FILE, py2gallina_c16.translate_decisions(src, GEN_SPEC) + '\n')
+        return [{'name': ob, 'ok': True, 'detail': 'translated (%d tests)' % sum(n for _, _, n in GEN_SPEC)}]
+    except Exception as e:   # Unsupported, SyntaxError, ...
+        return [{'name': ob, 'ok': False, 'detail': 'translator refused the current source: %s' % e}]
+
 
 CH_NAMES = ['A', 'B', 'M', 'N', 'X']
 CH_ID = {n: i for i, n in enumerate(CH_NAMES)}
@@ -349,7 +393,7 @@ def clean_case(tree, mn, mx, mode=None):
 
 def gen_cases(rng, tier, ctx):
     cases = []
-    n = 260 if tier == 'quick' else 6000
+    n = 220 if tier == 'quick' else 6000
     for _ in range(n):
         cases.append(gen_prog_case(rng, tier))
     # targeted: small limits around hand-picked restructuring situations
@@ -1061,7 +1105,16 @@ MANIFEST = {
                   'never fails with an unexpected exception type (was: counts >= 1; the zero-count AttributeError was '
                   'repaired in /repo 23255f9 and is modelled as the TaborException ENoWaveform).  Limits: every emitted '
                   'segment >= 192, multiple of 16; every table <= max_seq_len in both modes; >= min_seq_len in advanced '
-                  'mode (single mode refuted by witness = known finding, intended behaviour).  C16_spec_cached_eq: the '
+                  'mode (single mode refuted by witness = known finding, intended behaviour).  Stateful use (TaborProgram '
+                  'restructures its argument in place): every tree a first compilation can leave behind (returned or '
+                  'raised; left_behind) is in the input domain again and plays the same leaves, so an accepted second '
+                  'compilation with any configuration plays the ORIGINAL specification (C16_recompile_plays_any); the '
+                  'executable model of the in-place effect (tree_after) is compared with the real Loop object.  '
+                  'Source tie: the 22 if / elif / while / assert tests of _check_merge_with_next, '
+                  '_check_partial_unroll, prepare_program_for_advanced_sequence_mode and _calc_sampled_segments are '
+                  'translated from the current source on every run (translate/py2gallina_c16.py, fail-closed) and the '
+                  'model functions are proved equal to skeletons that take all their decisions from the translated '
+                  'tests (C16_source_*).  C16_spec_cached_eq: the '
                   'evaluation form of the specification used by the check equals the specification.  Tie to /repo: '
                   'exact correspondence check (segments as uploaded binary, tables, mode, accept/reject) and the '
                   'specification evaluated by Coq on the implementation\'s tables on every case, random stream + ten '
